@@ -531,3 +531,107 @@ def mentions_deep(F, t, needle):
 def edge_dominates(fn, edge, bb):
     """every path from entry to bb takes the CFG edge (a, s): bb is unreachable once the edge is removed"""
     return bb not in reachable_without_edges(fn, [edge])
+
+
+# ---------------------------------------------------------------------------------------------------------------
+# truth tables that look through local boolean helpers
+
+def subst_params(t, args):
+    """replace ('param', i, name) leaves of a term by args[i-1] (call-site argument terms)"""
+    if not isinstance(t, tuple):
+        return t
+    if t and t[0] == "param" and isinstance(t[1], int) and 1 <= t[1] <= len(args):
+        return args[t[1] - 1]
+    return tuple(subst_params(x, args) if isinstance(x, tuple) else x for x in t)
+
+
+def _strip_refs(t):
+    while isinstance(t, tuple) and t and t[0] in ("ref", "deref") and len(t) > 1 and isinstance(t[1], tuple):
+        t = t[1]
+    return t
+
+
+def _bool_rows_terms(fn):
+    """like bool_fn_table but atoms stay terms: [( ((term, truth), ...), value )], value = bool | ('atom', term, polarity)"""
+    rows = []
+    for path in enumerate_paths(fn):
+        atoms = []
+        val = None
+        for i, b in enumerate(path):
+            for s in fn.blocks[b]["stmts"]:
+                if s["k"] == "assign" and s["lhs"]["l"] == 0 and not s["lhs"].get("p"):
+                    t = rvalue_origin(fn, s["rv"], 0, frozenset(), 40)
+                    pol = True
+                    while t[0] == "un" and t[1] == "Not":
+                        t = t[2]
+                        pol = not pol
+                    if t[0] == "const":
+                        val = bool(t[1]) if pol else (not bool(t[1]))
+                    else:
+                        val = ("atom", t, pol)
+            tm = fn.term(b)
+            if tm["k"] == "call" and tm["dest"]["l"] == 0 and not tm["dest"].get("p"):
+                val = ("atom", call_origin(fn, tm, 0, frozenset(), 40), True)
+            if tm["k"] == "switch" and i + 1 < len(path):
+                be = bool_edge(fn, b, path[i + 1])
+                if be and be[1] is not None:
+                    atoms.append((be[0], be[1]))
+                else:
+                    atoms.append((("unknown", "?" + show(origin(fn, tm["discr"]))), None))
+        rows.append((tuple(atoms), val))
+    return rows
+
+
+def bool_fn_table_inlined(F, fn, depth=3):
+    """bool_fn_table, with calls to local functions returning bool expanded into their own rows (arguments substituted),
+    so that extracting part of a predicate into a helper does not change the table"""
+    def local_bool(t):
+        if isinstance(t, tuple) and t and t[0] == "call":
+            g = F.fn_opt(t[1])
+            if g is not None and g.blocks and (g.j.get("output") or "") == "bool":
+                return g
+        return None
+
+    def rows_of(f, d):
+        out = []
+        for atoms, val in _bool_rows_terms(f):
+            partial = [([], None)]   # list of (atoms so far, -)
+            dead = False
+            for (a, truth) in atoms:
+                g = local_bool(a) if d > 0 and truth is not None else None
+                if g is None:
+                    partial = [(p + [(a, truth)], None) for p, _ in partial]
+                    continue
+                sub = rows_of(g, d - 1)
+                nxt = []
+                for p, _ in partial:
+                    for gatoms, gval in sub:
+                        ga = [(subst_params(x, a[2]), tr) for (x, tr) in gatoms]
+                        if isinstance(gval, tuple):
+                            gv = subst_params(gval[1], a[2])
+                            want = truth if gval[2] else (not truth)
+                            nxt.append((p + ga + [(gv, want)], None))
+                        elif gval == truth:
+                            nxt.append((p + ga, None))
+                partial = nxt
+            for p, _ in partial:
+                if isinstance(val, tuple):
+                    g = local_bool(val[1]) if d > 0 else None
+                    if g is not None:
+                        for gatoms, gval in rows_of(g, d - 1):
+                            ga = [(subst_params(x, val[1][2]), tr) for (x, tr) in gatoms]
+                            if isinstance(gval, tuple):
+                                out.append((tuple(p + ga), ("atom", subst_params(gval[1], val[1][2]), gval[2] == val[2])))
+                            else:
+                                out.append((tuple(p + ga), gval if val[2] else (not gval)))
+                        continue
+                out.append((tuple(p), val))
+        return out
+
+    res = []
+    for atoms, val in rows_of(fn, depth):
+        sa = tuple((show(_strip_refs(a)), tr) for (a, tr) in atoms)
+        if isinstance(val, tuple):
+            val = ("atom", show(_strip_refs(val[1])), val[2])
+        res.append((sa, val))
+    return res
